@@ -14,6 +14,9 @@ which the non-malleable mode refuses ambiguous choices:
   * `thresh` (c)    — the index sort is a stable sorted permutation; if more than `k` children
                       have an available signature-less satisfaction the result is never a stack.
 
+  * judge (d)       — the one script-specific pruning rule of the adversary search (signature
+                      block of CHECKMULTISIG under NULLFAIL + NULLDUMMY) loses no accepted stack.
+
 What is NOT proved here: the uniqueness claim itself (`nonmall_unique_full`, stated below over
 `Script.accepts`/`encode`).  It is DECIDED on every run, for every explored input, by the
 exhaustive adversary search of `Driver/OpsMalle.lean` (`J nonmall` lines of `harness/src/c03.rs`).
@@ -29,6 +32,7 @@ before the repair of defect F3 (`Terminal::NonZero` had the dissatisfaction IMPO
 -/
 import MsVerif.Lemmas.MalleLattice
 import MsVerif.Lemmas.MalleThresh
+import MsVerif.Lemmas.MalleSearch
 import MsVerif.Model.TypeCheck
 import MsVerif.Model.Encode
 import MsVerif.Spec.SatTable
@@ -213,6 +217,35 @@ theorem dissat_table_agrees_at_j :
       (.nonZero (.andV (.verify (.check (.pkK 0))) .tru))).dissat.stack = .stack [.pushZero] ∧
     [Ph.pushZero].map phItem = [SatTable.Item.empty] := by
   decide
+
+/-! ## the judge's CHECKMULTISIG pruning rule -/
+
+/-- Soundness of the only script-specific pruning rule of the adversary search
+(`Driver/OpsMalle.lean`, `sigBlockKeys` / `nextChoices`): if CHECKMULTISIG(VERIFY) succeeds under
+NULLFAIL + NULLDUMMY on a stack `n, keys…, m, sigs…, dummy, rest`, then the dummy is empty and
+every signature element is empty or a valid signature for one of the keys — so restricting the
+candidates for these positions to exactly those elements loses no accepted stack. -/
+theorem search_sigblock_pruning_sound (env : Script.Env) (s s' : Script.Core) (verify : Bool)
+    (hnf : env.flags.nullFail = true) (hnd : env.flags.nullDummy = true)
+    (nB mB dummy : Bytes) (keys sigs rest : List Bytes) (n m : Nat)
+    (hst : s.stack = nB :: (keys ++ mB :: (sigs ++ dummy :: rest)))
+    (hn : Script.numDecode env.flags.minimalNum 4 nB = some (n : Int)) (hkl : keys.length = n)
+    (hm : Script.numDecode env.flags.minimalNum 4 mB = some (m : Int)) (hsl : sigs.length = m)
+    (h : Script.multisig env s verify = .ok s') :
+    dummy = [] ∧ ∀ sg ∈ sigs, sg = [] ∨ ∃ k ∈ keys, env.sigOk k sg = true :=
+  MalleSearch.multisig_block env s s' verify hnf hnd nB mB dummy keys sigs rest n m hst hn hkl hm hsl h
+
+/-- a 1-of-2 environment in which `[7]` is a valid signature for the key `03 00…00` only -/
+def exMsEnv : Script.Env := ⟨⟨false, true, true, true, true, true, true⟩,
+  fun pk sg => pk == (3 :: List.replicate 32 0) && sg == [7], fun _ b => b, 0, 0, 2⟩
+
+/-- instance of the hypotheses: CHECKMULTISIG succeeds on `2 <key 02…> <key 03…> 1 [7] <>` -/
+example :
+    (match Script.multisig exMsEnv ⟨[[2], 2 :: List.replicate 32 0, 3 :: List.replicate 32 0, [1], [7], []], [], 0⟩ false with
+     | .ok c => c.stack == [[1]]
+     | .error _ => false) = true := by
+  simp (decide := true) [Script.multisig, Script.multisigLoop, exMsEnv, Script.numDecode, Script.numDecodeRaw,
+    Script.countOp, Script.pushElem, Script.boolBytes, Script.leValue]
 
 /-! ## the property itself (open; decided by search on explored inputs) -/
 
